@@ -241,7 +241,7 @@ def rc_rerun(ck, rp):
     d = rp.get('detail', {})
     item = d.get('item') or {}
     print(json.dumps({'sig': rp.get('sig'), 'item': {k: item.get(k) for k in ('id', 'kind', 'src', 'probe', 'seed')}}))
-    if item.get('kind') == 'random':
+    if item.get('kind') == 'random' or (item.get('sc') and item.get('seed') is not None):
         out = ck.run_binder('refcount', [{'kind': 'random', 'id': 0, 'sc': item['sc'], 'seed': item['seed']}],
                             extra={'detsched': False})
         r = out['results'][0]
@@ -408,7 +408,7 @@ def pc_rerun(ck, rp):
     d = rp.get('detail', {})
     item = d.get('item') or {}
     print(json.dumps({'sig': rp.get('sig'), 'item': {k: item.get(k) for k in ('id', 'kind', 'src', 'variant', 'seed')}}))
-    if item.get('kind') == 'concurrent' or 'sc' in (d.get('item') or {}) and item.get('sc'):
+    if item.get('kind') == 'concurrent' or (item.get('sc') and item.get('seed') is not None):
         out = ck.run_binder('proxycall', [{'kind': 'concurrent', 'id': 0, 'sc': item['sc'], 'seed': item['seed']}],
                             extra={'detsched': False})
         r = out['results'][0]
